@@ -136,10 +136,21 @@ def run(tier):
             for pos in POSITIONS:
                 doc, holder_path, wire = op_for(pos, k)
                 mods.append({"k": k, "t": t, "pos": pos, "doc": doc, "holder": holder_path, "wire": wire, "declared": True})
-    resps = generate([gen_request(("scalar ID\nscalar String\n" + sdl) if m.get("declared") else sdl, gql.render_doc(m["doc"]), inspect=True) for m in mods])
+    # ... and under other option sets: where the coercion is attached must not depend on options
+    OPTION_SETS = [{"custom_scalars_module": "crate::scalars"}, {"normalization": "rust", "skip_none": True, "other_variant": True},
+                   {"deprecation": "deny", "response_derives": "Serialize,Debug,Clone"}]
+    for k, t in enumerate(exprs):
+        for oi, o in enumerate(OPTION_SETS):
+            if (k + oi) % 2 == 0 or tier == "thorough":
+                for pos in POSITIONS:
+                    doc, holder_path, wire = op_for(pos, k)
+                    mods.append({"k": k, "t": t, "pos": pos, "doc": doc, "holder": holder_path, "wire": wire, "opts": o})
+    from genlib import DEFAULT_OPTS
+    resps = generate([gen_request(("scalar ID\nscalar String\n" + sdl) if m.get("declared") else sdl, gql.render_doc(m["doc"]),
+                                  dict(DEFAULT_OPTS, **m["opts"]) if m.get("opts") else None, inspect=True) for m in mods])
     farm = Farm("c16")
     for m, r in zip(mods, resps):
-        label = {"type_expr": gql.type_str(m["t"]), "position": m["pos"], "query": gql.render_doc(m["doc"]), "sdl_declares_scalar_ID": bool(m.get("declared"))}
+        label = {"type_expr": gql.type_str(m["t"]), "position": m["pos"], "query": gql.render_doc(m["doc"]), "sdl_declares_scalar_ID": bool(m.get("declared")), "options": m.get("opts") or "default"}
         m["label"] = label
         if r["status"] != "ok":
             rep.violation("generation_failed", label, r.get("msg"))
@@ -169,7 +180,7 @@ def run(tier):
         if not cid:
             continue
         c = farm.cases[cid]
-        distinct.add((gql.type_str(m["t"]), m["pos"], bool(m.get("declared"))))
+        distinct.add((gql.type_str(m["t"]), m["pos"], bool(m.get("declared")), json.dumps(m.get("opts"), sort_keys=True)))
         sigs = set()
         if depth_of(m["t"]) > 0:
             sigs.add("id_field_with_list_qualifier")
